@@ -29,20 +29,20 @@ theorem phase_carries (o : OSet) (ph : PhaseSpec) :
 
 theorem propagatePause_events (o : OSet) (n : String) (cur : OPhase) (w : World) :
     (propagatePause o n cur w).1.events = w.events := by
-  simp only [propagatePause]; split <;> simp [setPhase, freshRV]
+  simp only [propagatePause]; split <;> simp [setPhase, freshRV, World.tick]
 
 /-- reconciling a delegated phase never writes a managed object itself. -/
 theorem remoteReconcile_events (o : OSet) (ph : PhaseSpec) (w : World) :
     (remoteReconcile o ph w).1.events = w.events := by
   simp only [remoteReconcile]
   split
-  · simp [setPhase, freshRV, freshUID]
+  · simp [setPhase, freshRV, freshUID, World.tick]
   · simp [propagatePause_events]
 
 theorem remoteTeardown_events (o : OSet) (ph : PhaseSpec) (w : World) :
     (remoteTeardown o ph w).1.events = w.events := by
   simp only [remoteTeardown]
-  (repeat' split) <;> simp [setPhase, freshRV]
+  (repeat' split) <;> simp [setPhase, freshRV, World.tick]
 
 /-- **exactly one phase object per delegated phase**: it is created only when absent (under its
 fixed name), and then equals the desired object; an existing one is never re-created — the only
@@ -58,11 +58,11 @@ theorem create_only_when_absent (o : OSet) (ph : PhaseSpec) (w : World) :
   constructor
   · intro h
     simp only [remoteReconcile, h]
-    exact ⟨by simp [setPhase, freshRV, freshUID], by simp [setPhase, freshRV, freshUID]⟩
+    exact ⟨by simp [setPhase, freshRV, freshUID, World.tick], by simp [setPhase, freshRV, freshUID, World.tick]⟩
   · intro cur h
     simp only [remoteReconcile, h, propagatePause]
     split
-    · right; exact ⟨decide (o.lifecycle = .paused), by simp [setPhase, freshRV]⟩
+    · right; exact ⟨decide (o.lifecycle = .paused), by simp [setPhase, freshRV, World.tick]⟩
     · left; rfl
 
 /-- generation of the phase object after the pause propagation of this pass. -/
@@ -141,7 +141,7 @@ theorem remote_teardown_waits (o : OSet) (ph : PhaseSpec) (w : World) :
         · intro h; rcases h with h | ⟨c, hc, hne⟩
           · cases h
           · cases hc; exact absurd hne hown
-      · intro _; (repeat' split) <;> simp [setPhase, freshRV]
+      · intro _; (repeat' split) <;> simp [setPhase, freshRV, World.tick]
 
 /-- **delegated_pass_eq_local_pass**: the managed-object writes of an ObjectSetPhase controller
 pass on a live phase object are exactly those of the in-process phase reconciler run with the
@@ -152,7 +152,7 @@ theorem delegated_pass_eq_local_pass (cfg : Cfg) (setKind ns name : String) (s :
     (reconcilePhaseCtl cfg setKind ns name s).1.w.events =
       (reconcilePhaseObjs cfg (phaseOwner mem setKind ns) (lookupPrevFor s setKind mem.previous) mem.objs s.w).1.events := by
   have hlw : ∀ (w : World) (m : OPhase) (f : OPhase → OPhase), (lockedPhaseWrite w m f).1.events = w.events := by
-    intro w m f; simp only [lockedPhaseWrite]; (repeat' split) <;> simp [setPhase, freshRV]
+    intro w m f; simp only [lockedPhaseWrite]; (repeat' split) <;> simp [setPhase, freshRV, World.tick]
   have hus : ∀ (w : World) (m : OPhase), (updatePhaseStatus w m).1.events = w.events := by
     intro w m; simp only [updatePhaseStatus]; split <;> simp [hlw]
   have haps : ∀ (x : World × Except ApiErr OPhase) (r : Res), (afterPhaseStatus x r).1 = x.1 := by
